@@ -11,7 +11,8 @@ from ..common.env import import_library
 ID = "C17"
 RULE = ("'edited': (continuum 2-5 annotators; a generated valid partition of it; a list of edits: drop a unit, drop a unitary alignment, duplicate a unit into "
         "another unitary alignment, move a unit into another annotator's slot, duplicate a whole unitary alignment, add a covering extra unitary alignment; "
-        "permutation of the unitary alignments and of the slots inside each). 'grid': ALL ordered lists of 1..4 unitary alignments over a 2x2 continuum "
+        "permutation of the unitary alignments and of the slots inside each; an exact affine time map from a fixed list - offsets up to 2^33, scales 2^-10..2^20 (durations stay above pyannote's 1e-6 segment precision) - so that "
+        "distinct units may agree to 6+ significant digits). 'grid': ALL ordered lists of 1..4 unitary alignments over a 2x2 continuum "
         "(exhaustive, 4680 alignments) + the empty list. Oracle: occurrence count of every (annotator, unit) of the continuum among the non-empty slots: "
         "Alignment.check (explicit continuum, attached continuum, check_validity=True at construction) returns iff every count == 1 and raises SetPartitionError "
         "iff some count is 0 or >= 2; SoftAlignment.check returns iff every count >= 1, raises SetPartitionError when a unit is missing; verdicts are identical "
@@ -150,8 +151,22 @@ def evaluate(cont, groups, perm_seed):
     return {"nontrivial": off_by_one or valid, "classes": classes}
 
 
+# exact affine time maps (power-of-two scales, offsets with few significant bits): units that are distinct stay distinct in float64, but
+# their bounds may agree to 6+ significant digits (large timestamps, near-coincident bounds) - the printable form of a unit is not its identity
+TIME_MAPS = [[0.0, 1.0], [0.0, 1.0], [5e7, 1.0], [float(2 ** 33), 1.0], [3600.0, 2.0 ** -10], [1e6, 2.0 ** -10], [-5e7, 1.0], [0.0, 2.0 ** 20]]
+
+
+def _time_mapped(cont, tmap):
+    shift, scale = tmap
+    if shift == 0.0 and scale == 1.0:
+        return cont
+    units = [[a, shift + s * scale, shift + e * scale, l] for a, s, e, l in cont["units"]]
+    assert len({(a, s, e, l) for a, s, e, l in units}) == len(units) and all(s < e for _, s, e, _ in units), "time map must be injective"
+    return dict(cont, units=units)
+
+
 def check_edited(case):
-    cont = case["continuum"]
+    cont = _time_mapped(case["continuum"], case.get("tmap", [0.0, 1.0]))
     per = oracle.per_annotator(cont)
     names = sorted(per)
     rnd = random.Random(case["seed"])
@@ -199,6 +214,8 @@ def check_edited(case):
         edits.append(kind)
     info = evaluate(cont, groups, case["seed"])
     info["classes"] = info["classes"] + [f"n={len(names)}"] + sorted(set(edits))
+    if case.get("tmap", [0.0, 1.0]) != [0.0, 1.0]:
+        info["classes"].append("time-mapped")
     return info
 
 
@@ -228,7 +245,8 @@ def edited_cases(draw):
     cont = draw(gen.continua(min_ann=2, max_ann=5, budget=10 ** 9, max_per=5))
     kinds = st.sampled_from(["drop_unit", "drop_group", "dup_unit", "move_unit", "dup_group", "extra_cover"])
     edits = draw(st.lists(st.tuples(kinds, st.integers(0, 20), st.integers(0, 20), st.integers(0, 20)), min_size=0, max_size=3))
-    return {"continuum": cont, "edits": [list(e) for e in edits], "seed": draw(st.integers(0, 10 ** 6)), "pad": draw(st.integers(0, 2))}
+    return {"continuum": cont, "edits": [list(e) for e in edits], "seed": draw(st.integers(0, 10 ** 6)), "pad": draw(st.integers(0, 2)),
+            "tmap": draw(st.sampled_from(TIME_MAPS))}
 
 
 def subchecks(tier):
